@@ -62,11 +62,13 @@ class Strings:
     def __init__(self, rng):
         self.rng = rng
         self.by_text = {}
+        self.by_idx = {}
         self.next = rng.randrange(0, 50)
 
     def idx(self, text):
         if text not in self.by_text:
             self.by_text[text] = self.next
+            self.by_idx[self.next] = text
             self.next += self.rng.randrange(1, 4)
         return self.by_text[text]
 
@@ -74,7 +76,8 @@ class Strings:
         return {'StringIndex': dict(self.by_text)}
 
     def inverted(self):
-        return {v: k for k, v in self.by_text.items()}
+        """index -> text; the live table (it only ever grows), shared by every caller."""
+        return self.by_idx
 
 
 WORDS = ['alpha', 'beta', 'gamma', 'com.apple.xpc', 'launchd', 'kernel', 'Safari', '/usr/libexec/tccd', 'proc',
